@@ -163,7 +163,17 @@ def run_C19(ctx, R):
     _scoped(ctx, R, tab.tab11, C19_ENTRIES, 4)
 
 
+def run_C01(ctx, R):
+    from .rules import bnd
+    _per_config(ctx, R, bnd.bnd_parse)
+
+
 PROPERTIES = {
+    'C01': {
+        'run': run_C01, 'modules': [],
+        'explanation': "BND1/BND2/BND4/EFF7 (work in progress)",
+        'not_decided': [],
+    },
     'C14': {
         'run': run_C14,
         'modules': ['eff'],
